@@ -26,7 +26,7 @@ pub open spec fn reader_step(s: RState, data: Seq<u8>) -> (RState, ROut) {
             match spec_parse(b.subrange(0, rec_needed(b))) {
                 Ok(Some(sig)) => (RState { buf: b.subrange(rec_needed(b), b.len() as int), done: true }, ROut::Got(sig)),
                 Ok(None) => (RState { buf: Seq::<u8>::empty(), done: false }, ROut::NoneYet),
-                Err(e) => (RState { buf: b, done: false }, ROut::ParseErr(e)),
+                Err(e) => (RState { buf: Seq::<u8>::empty(), done: false }, ROut::ParseErr(e)),  // unparsable record dropped
             }
         }
     }
